@@ -1067,6 +1067,18 @@ BATTERY = [
         {"kind": "merge", "rev_id": "2.1", "head": ["1.1", "v2.0"]},
         {"rev_id": "abcd12", "head": "2.1"},
     ]),
+    # a file_template without the revision id: revisions of different version locations may share a file name
+    ({"two_locations": True, "file_template": "%(slug)s"}, [
+        {"rev_id": "a5a5", "head": "base", "version_path": 0, "message": "initial"},
+        {"rev_id": "b5b5", "head": "base", "version_path": 1, "message": "initial"},
+        {"rev_id": "c5c5", "head": "b5b5", "message": "second", "depends_on": "a5a5"},
+        {"rev_id": "d5d5", "head": "a5a5", "message": "second"},
+    ]),
+    ({"two_locations": True, "recursive": True, "file_template": "%(year)d_%(slug)s"}, [
+        {"rev_id": "a6a6", "head": "base", "version_path": 0, "message": "tables"},
+        {"rev_id": "b6b6", "head": "base", "version_path": 1, "message": "tables"},
+        {"kind": "merge", "rev_id": "c6c6", "head": ["a6a6", "b6b6"], "message": "tables"},
+    ]),
     ({"sourceless": True, "bytecode": True, "file_template": "%(rev)s.%(slug)s"}, [
         {"rev_id": "a4a4", "head": "base", "message": "dots from the template"},
         {"rev_id": "b4b4", "head": "a4a4", "message": "second"},
